@@ -22,6 +22,8 @@ static ev_src_t *g_src; static evt_priv_t *g_evt;
 #include "ctxapi.contracts.h"
 #elif defined(V_LOOPSTART_UNIT) || defined(V_LOOPSTOP_UNIT) || defined(V_TICK_UNIT)
 #include "loop.contracts.h"
+#elif defined(V_SETTICK_UNIT)
+#include "reg.contracts.h"
 #else
 #include "ctx.contracts.h"
 #endif
@@ -31,7 +33,7 @@ V_DEFINE_INPUTS(H_INPUTS)
 
 #include "vbuild.h"
 
-#if !defined(V_RECV_UNIT) && !defined(V_CTXAPI_UNIT) && !defined(V_LOOPSTART_UNIT) && !defined(V_LOOPSTOP_UNIT) && !defined(V_TICK_UNIT)
+#if !defined(V_RECV_UNIT) && !defined(V_CTXAPI_UNIT) && !defined(V_LOOPSTART_UNIT) && !defined(V_LOOPSTOP_UNIT) && !defined(V_TICK_UNIT) && !defined(V_SETTICK_UNIT)
 void h_push_evt(void) {
     build();
     g_evt = malloc(sizeof *g_evt); __CPROVER_assume(g_evt != NULL);
@@ -112,4 +114,16 @@ void h_loop_stop(void) { build_loop(); g_ctx->state = M_CTX_LOOPING; uint8_t r =
 #endif
 #ifdef V_TICK_UNIT
 void h_process_tick(void) { build_loop(); static ev_src_t ts; ev_src_t *r = process_tick(&ts, g_ctx, 0, NULL); (void)r; V_COVER("tick", g.sys_tick == 1); V_CANARY(); }
+#endif
+
+#ifdef V_SETTICK_UNIT
+void h_set_tick(void) {
+    build();
+    g_mctx = vin_tls_kind ? g_ctx : NULL;
+    g_newsrc = malloc(sizeof *g_newsrc); __CPROVER_assume(g_newsrc != NULL);
+    g_ctx->tick.src = vin_has_src ? malloc(sizeof(ev_src_t)) : NULL; g_ctx->tick.tmr.ns = vin_up_other;
+    int r = m_ctx_set_tick(vin_batch_len);
+    V_COVER("tick-first", r == 0 && !vin_has_src && vin_batch_len == 1000); V_COVER("tick-change-period", r == 0 && vin_has_src && vin_batch_len != 0 && vin_up_other != vin_batch_len); V_COVER("tick-off", r == 0 && vin_batch_len == 0);
+    V_CANARY();
+}
 #endif
